@@ -32,6 +32,65 @@ theorem runOk_eq_foldl {d d1 : Disk} {ops : List Op} (h : runOk d ops = some d1)
     · exact ih h
     · cases h
 
+/-! ### chains of accepted operations -/
+
+/-- the image `d` corresponds to an instance in state `q.1` with context `q.2` -/
+def RelAt (q : State × Ctx) (d : Disk) : Prop := Rel { s := q.1, d := d, c := q.2 }
+
+/-- a stream of accepted operations along which the image corresponds to `old` or to `new` -/
+inductive Chain (old new : State × Ctx) : Disk → List Op → Prop
+  | nil (d : Disk) (h : RelAt old d ∨ RelAt new d) : Chain old new d []
+  | cons (d : Disk) (op : Op) (rest : List Op) (h : RelAt old d ∨ RelAt new d) (hok : ok d op = true)
+      (tail : Chain old new (apply d op) rest) : Chain old new d (op :: rest)
+
+theorem Chain.head {old new : State × Ctx} {d : Disk} {ops : List Op} (c : Chain old new d ops) :
+    RelAt old d ∨ RelAt new d := by
+  cases c with
+  | nil _ h => exact h
+  | cons _ _ _ h _ _ => exact h
+
+theorem Chain.run {old new : State × Ctx} {d : Disk} {ops : List Op} (c : Chain old new d ops) :
+    runOk d ops = some (ops.foldl apply d) := by
+  induction c with
+  | nil d _ => rfl
+  | cons d op rest _ hok _ ih => rw [runOk_cons hok]; exact ih
+
+theorem Chain.last {old new : State × Ctx} {d : Disk} {ops : List Op} (c : Chain old new d ops) :
+    RelAt old (ops.foldl apply d) ∨ RelAt new (ops.foldl apply d) := by
+  induction c with
+  | nil d h => exact h
+  | cons d op rest _ _ _ ih => exact ih
+
+/-- every prefix -/
+theorem Chain.prefix {old new : State × Ctx} {d : Disk} {ops : List Op} (c : Chain old new d ops) :
+    ∀ i, i ≤ ops.length →
+      (RelAt old ((ops.take i).foldl apply d) ∨ RelAt new ((ops.take i).foldl apply d)) ∧
+      runOk d (ops.take i) = some ((ops.take i).foldl apply d) := by
+  induction c with
+  | nil d h => intro i _; simp only [List.take_nil, List.foldl_nil]; exact ⟨h, rfl⟩
+  | cons d op rest h hok _ ih =>
+    intro i hi
+    cases i with
+    | zero => simp only [List.take_zero, List.foldl_nil]; exact ⟨h, rfl⟩
+    | succ j =>
+      simp only [List.take_succ_cons, List.foldl_cons]
+      have := ih j (by simpa using hi)
+      exact ⟨this.1, by rw [runOk_cons hok]; exact this.2⟩
+
+theorem Chain.append {old new : State × Ctx} {d : Disk} {a b : List Op} (ca : Chain old new d a)
+    (cb : Chain old new (a.foldl apply d) b) : Chain old new d (a ++ b) := by
+  induction ca with
+  | nil d _ => exact cb
+  | cons d op rest h hok _ ih => exact Chain.cons d op (rest ++ b) h hok (ih cb)
+
+/-- a chain on the `old` side can be read as a chain for any `new` -/
+theorem Chain.single {old new : State × Ctx} {d : Disk} {op : Op} (h : RelAt old d ∨ RelAt new d)
+    (hok : ok d op = true) (h' : RelAt old (apply d op) ∨ RelAt new (apply d op)) :
+    Chain old new d [op] :=
+  Chain.cons d op [] h hok (Chain.nil _ h')
+
+/-! ### lists of table operations -/
+
 /-! ### several tables at once -/
 
 def ctOps (outs : List (Nat × List Entry)) : List Op := outs.map fun o => Op.completeTable o.1 o.2
@@ -83,6 +142,33 @@ theorem rel_removeTables (nums : List Nat) :
     show runOk p.d (Op.removeTable n :: rtOps rest) = some d1
     rw [runOk_cons hok]; exact hrun
 
+theorem chain_completeTables (old new : State × Ctx) (outs : List (Nat × List Entry)) :
+    ∀ {d : Disk}, RelAt old d → (∀ o ∈ outs, ∀ l f, f ∈ lv old.1.levels l → f.num ≠ o.1) →
+      Chain old new d (ctOps outs) ∧ RelAt old ((ctOps outs).foldl apply d) := by
+  induction outs with
+  | nil => intro d h _; exact ⟨Chain.nil d (Or.inl h), h⟩
+  | cons o rest ih =>
+    intro d h hfresh
+    obtain ⟨hok, hR⟩ := rel_completeTable (p := { s := old.1, d := d, c := old.2 }) h o.1 o.2
+      (hfresh o List.mem_cons_self)
+    obtain ⟨c, hl⟩ := ih (d := apply d (.completeTable o.1 o.2)) hR
+      (fun o' ho' => hfresh o' (List.mem_cons_of_mem _ ho'))
+    exact ⟨Chain.cons d _ _ (Or.inl h) hok c, hl⟩
+
+theorem chain_removeTables (old new : State × Ctx) (nums : List Nat) :
+    ∀ {d : Disk}, RelAt new d → (∀ n ∈ nums, ∀ l f, f ∈ lv new.1.levels l → f.num ≠ n) →
+      Chain old new d (rtOps nums) ∧ RelAt new ((rtOps nums).foldl apply d) := by
+  induction nums with
+  | nil => intro d h _; exact ⟨Chain.nil d (Or.inr h), h⟩
+  | cons n rest ih =>
+    intro d h hfresh
+    obtain ⟨hok, hR⟩ := rel_removeTable (p := { s := new.1, d := d, c := new.2 }) h n
+      (hfresh n List.mem_cons_self)
+    obtain ⟨c, hl⟩ := ih (d := apply d (.removeTable n)) hR
+      (fun n' hn' => hfresh n' (List.mem_cons_of_mem _ hn'))
+    exact ⟨Chain.cons d _ _ (Or.inr h) hok c, hl⟩
+
+
 /-! ### the version after an edit -/
 
 theorem inVersion_add {L : List (List File)} {t : Nat} (f : File) (ht : t < L.length) (q : Nat × Nat) :
@@ -111,6 +197,9 @@ theorem step_get {s s' : State} {a : Action} (h : InvP s) (hs : step s a = some 
 structure StepOk (p p' : PState) (ops : List Op) : Prop where
   run : runOk p.d ops = some p'.d
   rel : Rel p'
+  /-- every prefix of the operations: accepted, and the image corresponds to the state before or
+  after the step -/
+  chain : Chain (p.s, p.c) (p'.s, p'.c) p.d ops
 
 /-! ### write and rotation -/
 
@@ -119,7 +208,8 @@ theorem write_ok {p : PState} (h : Rel p) (ops : List (Bytes × Option Bytes)) :
       (opsOf p (.write ops)) := by
   obtain ⟨hok, hR⟩ := rel_appendWal h ops
   exact ⟨by simp only [opsOf, List.foldl_cons, List.foldl_nil]; rw [runOk_cons hok]; rfl,
-         by simpa only [opsOf, List.foldl_cons, List.foldl_nil] using hR⟩
+         by simpa only [opsOf, List.foldl_cons, List.foldl_nil] using hR,
+         Chain.single (Or.inl h) hok (Or.inr hR)⟩
 
 theorem rotate_ok {p : PState} (h : Rel p) (w : Nat) (hw : ∀ x ∈ p.d.wals, x.1 < w) (s' : State)
     (hs : stepRotate p.s = some s') :
@@ -127,7 +217,8 @@ theorem rotate_ok {p : PState} (h : Rel p) (w : Nat) (hw : ∀ x ∈ p.d.wals, x
       (opsOf p (.rotate w)) := by
   obtain ⟨hok, hR⟩ := rel_createWal h w hw s' hs
   exact ⟨by simp only [opsOf, List.foldl_cons, List.foldl_nil]; rw [runOk_cons hok]; rfl,
-         by simpa only [opsOf, List.foldl_cons, List.foldl_nil, ctxAfter] using hR⟩
+         by simpa only [opsOf, List.foldl_cons, List.foldl_nil, ctxAfter] using hR,
+         Chain.single (Or.inl h) hok (Or.inr hR)⟩
 
 /-! ### flush -/
 
@@ -161,11 +252,13 @@ theorem flush_ok {p : PState} (h : Rel p) (num lvl : Nat) (s' : State)
       { p.c with immWal := none } hinv' hlast hget rfl rfl hver
       (by rw [hs']; exact h.tables) (by rw [hs']) (Or.inr ⟨rfl, rfl, by rw [hs']⟩)
     obtain ⟨hok2, hR2⟩ := rel_removeWal hR wi (by simp [Ctx.w0]; exact hlt)
-    refine ⟨?_, ?_⟩
+    refine ⟨?_, ?_, ?_⟩
     · simp only [opsOf, hi, hwi, List.cons_append, List.nil_append, List.foldl_cons, List.foldl_nil]
       rw [runOk_cons hok, runOk_cons hok2]; rfl
     · simpa only [opsOf, hi, hwi, List.cons_append, List.nil_append, List.foldl_cons, List.foldl_nil,
         ctxAfter] using hR2
+    · simp only [opsOf, hi, hwi, List.cons_append, List.nil_append, ctxAfter]
+      exact Chain.cons _ _ _ (Or.inl h) hok (Chain.single (Or.inr hR) hok2 (Or.inr hR2))
   · -- a table is written first
     have ht : lvl < 7 := by rcases hlvl with rfl | ⟨h1, _⟩ <;> omega
     have hfresh : ∀ l f, f ∈ lv p.s.levels l → f.num ≠ num := by
@@ -198,11 +291,14 @@ theorem flush_ok {p : PState} (h : Rel p) (num lvl : Nat) (s' : State)
       { p.c with immWal := none } hinv' hlast hget rfl rfl hver htab (by rw [hs'])
       (Or.inr ⟨rfl, rfl, by rw [hs']⟩)
     obtain ⟨hok3, hR3⟩ := rel_removeWal hR2 wi (by simp [Ctx.w0]; exact hlt)
-    refine ⟨?_, ?_⟩
+    refine ⟨?_, ?_, ?_⟩
     · simp only [opsOf, hi, hwi, List.cons_append, List.nil_append, List.foldl_cons, List.foldl_nil]
       rw [runOk_cons hok1, runOk_cons hok2, runOk_cons hok3]; rfl
     · simpa only [opsOf, hi, hwi, List.cons_append, List.nil_append, List.foldl_cons, List.foldl_nil,
         ctxAfter] using hR3
+    · simp only [opsOf, hi, hwi, List.cons_append, List.nil_append, ctxAfter]
+      exact Chain.cons _ _ _ (Or.inl h) hok1 (Chain.cons _ _ _ (Or.inl hR1) hok2
+        (Chain.single (Or.inr hR2) hok3 (Or.inr hR3)))
 
 end Rain.Persist.Lemmas
 
@@ -262,10 +358,11 @@ theorem move_ok {p : PState} (h : Rel p) (num lvl : Nat) (s' : State)
   obtain ⟨hok, hR⟩ := rel_appendManifest h
     { walNumber := none, added := [(lvl + 1, num)], deleted := [(lvl, num)] } s' p.c
     hinv' hlast hget rfl rfl hver htab (by rw [hs']) (Or.inl ⟨rfl, rfl, by rw [hs']⟩)
-  refine ⟨?_, ?_⟩
+  refine ⟨?_, ?_, ?_⟩
   · simp only [opsOf, List.foldl_cons, List.foldl_nil]
     rw [runOk_cons hok]; rfl
   · simpa only [opsOf, List.foldl_cons, List.foldl_nil] using hR
+  · exact Chain.single (Or.inl h) hok (Or.inr hR)
 
 end Rain.Persist.Lemmas
 
@@ -405,10 +502,24 @@ theorem compact_ok {p : PState} (h : Rel p) (c : Compaction) (s' : State)
     · exact hrun3
     · rw [runOk_append hrun1, runOk_cons hok2]; rfl
   have hd3 : d3 = (opsOf p (.compact c)).foldl apply p.d := runOk_eq_foldl hall
-  refine ⟨?_, ?_⟩
+  refine ⟨?_, ?_, ?_⟩
   · show runOk p.d (opsOf p (.compact c)) = some ((opsOf p (.compact c)).foldl apply p.d)
     rw [← hd3]; exact hall
   · show Rel { s := s', d := (opsOf p (.compact c)).foldl apply p.d, c := p.c }
     rw [← hd3]; exact hR3
+  · -- the chain: output tables (old state), the edit (switch), input tables (new state)
+    obtain ⟨c1, hl1'⟩ := chain_completeTables (p.s, p.c) (s', p.c) c.outputs (d := p.d) h
+      (fun o ho l f hf => v.outs_fresh o ho l f hf)
+    have hd1 : d1 = (ctOps c.outputs).foldl apply p.d := runOk_eq_foldl hrun1
+    have c2 : Chain (p.s, p.c) (s', p.c) ((ctOps c.outputs).foldl apply p.d)
+        [Op.appendManifest p.c.manifest e] := by
+      rw [← hd1]; exact Chain.single (Or.inl hR1) hok2 (Or.inr hR2)
+    obtain ⟨c3, _⟩ := chain_removeTables (p.s, p.c) (s', p.c) (c.inputs0 ++ c.inputs1)
+      (d := apply d1 (.appendManifest p.c.manifest e)) hR2 hgone
+    show Chain (p.s, p.c) (s', p.c) p.d
+      ((ctOps c.outputs ++ [Op.appendManifest p.c.manifest e]) ++ rtOps (c.inputs0 ++ c.inputs1))
+    refine Chain.append (Chain.append c1 c2) ?_
+    rw [List.foldl_append, ← hd1]
+    exact c3
 
 end Rain.Persist.Lemmas
